@@ -471,6 +471,49 @@ Fixpoint mon_c14_live (got_resp : bool) (ws : list wev) : bool :=
   | _ :: rest => mon_c14_live got_resp rest
   end.
 
+(* pings when needed, failure at the deadline (completeness half of the keep-alive contract), on the snapshots:
+   [prev] = snapshot after the previous call; [last] = time of the CONNACK or of the latest complete
+   transmission on this connection; [armed] = latest time a PINGRESP deadline was armed.
+   - Connected with K > 0: a next ping time exists and is at most max(last, armed) + K s: the engine never
+     plans to stay silent for more than K seconds after its latest transmission;
+   - a successful service call at or after the planned ping time, with no ping outstanding, arms a PINGRESP
+     deadline (the PINGREQ is queued);
+   - a service call at or after an armed PINGRESP deadline fails the connection. *)
+Fixpoint mon_c14_pings (cfg : config) (k : N) (prev : option snap) (last armed : N) (ws : list wev) : bool :=
+  match ws with
+  | [] => true
+  | WOpen _ :: rest => mon_c14_pings cfg 0 prev 0 0 rest
+  | WRecv now (Connack c) :: rest =>
+      if ca_rc c =? 0 then
+        let k' := match ca_server_keep_alive c with Some x => x | None => match co_keep_alive (cf_connect cfg) with Some x => x | None => 0 end end in
+        mon_c14_pings cfg k' prev (N.max last now) armed rest
+      else mon_c14_pings cfg k prev last armed rest
+  | WSent now _ _ :: rest => mon_c14_pings cfg k prev (N.max last now) armed rest
+  | WCall now e r sn :: rest =>
+      let armed' := match prev with
+                    | Some p => match sn_ping_to p, sn_ping_to sn with None, Some _ => now | _, _ => armed end
+                    | None => armed end in
+      (match e, prev with
+       | EvService _ _ _, Some p =>
+           if pstate_eqb (sn_st p) Connected then
+             match sn_ping_to p with
+             | Some pt => if pt <=? now then match r with Err EConnectionClosed => true | _ => false end else true
+             | None =>
+                 match sn_next_ping p with
+                 | Some n => if (n <=? now) && is_okb r then match sn_ping_to sn with Some _ => true | None => false end else true
+                 | None => true
+                 end
+             end
+           else true
+       | _, _ => true
+       end) &&
+      (if pstate_eqb (sn_st sn) Connected && (0 <? k) && is_okb r then
+         match sn_next_ping sn with Some n => n <=? N.max last armed' + k * 1000 | None => false end
+       else true) && mon_c14_pings cfg k (Some sn) last armed' rest
+  | WNst _ _ sn :: rest => mon_c14_pings cfg k (Some sn) last armed rest
+  | _ :: rest => mon_c14_pings cfg k prev last armed rest
+  end.
+
 (* with K = 0 no PINGREQ is ever sent *)
 Fixpoint mon_c14_zero (cfg : config) (k : N) (ws : list wev) : bool :=
   match ws with
@@ -731,6 +774,44 @@ Fixpoint mon_c05_deliver (known unsure : list N) (expect : list (publish * bool)
   | _ :: rest => mon_c05_deliver known unsure expect rest
   end.
 
+(* ------------------------------------------------------------------ C17: inbound topic aliases *)
+(* client-side table of the current connection as the SERVER's packets define it: alias -> topic.
+   A publish accepted by a data call that returned Ok: its alias is in 1..the maximum the CONNECT
+   announced, an empty topic refers to a bound alias, and the message is surfaced with the topic the
+   table gives (every expectation is optional here: whether it is surfaced is C05's business). *)
+Fixpoint find_topic (p : publish) (expect : list (publish * bytes)) : option bytes :=
+  match expect with
+  | [] => None
+  | (q, t) :: r => if same_message p q then Some t else find_topic p r
+  end.
+Fixpoint mon_c17_in (maxin : N) (table : list (N * bytes)) (expect : list (publish * bytes)) (ws : list wev) : bool :=
+  match ws with
+  | [] => true
+  | WOpen _ :: rest => mon_c17_in maxin [] [] rest
+  | WClose _ _ :: rest => mon_c17_in maxin [] [] rest
+  | WReset _ :: rest => mon_c17_in maxin [] [] rest
+  | WRecv _ (Publish pb) :: rest =>
+      match pub_alias pb with
+      | None => negb (isnil (pub_topic pb)) && mon_c17_in maxin table (expect ++ [(pb, pub_topic pb)]) rest
+      | Some a =>
+          match pub_topic pb with
+          | [] => match lookup a table with
+                  | Some t => mon_c17_in maxin table (expect ++ [(pb, t)]) rest
+                  | None => false                      (* unknown alias accepted *)
+                  end
+          | t => (1 <=? a) && (a <=? maxin) && mon_c17_in maxin (insert a t table) (expect ++ [(pb, t)]) rest
+          end
+      end
+  | WDeliver _ (Publish pb) :: rest =>
+      negb (isnil (pub_topic pb)) &&
+      match find_topic pb expect with
+      | Some t => obytes_eqb t (pub_topic pb)
+      | None => true
+      end && mon_c17_in maxin table expect rest
+  | WCall _ _ _ _ :: rest => mon_c17_in maxin table [] rest
+  | _ :: rest => mon_c17_in maxin table expect rest
+  end.
+
 (* ------------------------------------------------------------------ all monitors, tagged *)
 (* tag = property number * 100 + index *)
 Definition all_monitors (cfg : config) (ws : list wev) : list (N * bool) :=
@@ -761,9 +842,11 @@ Definition all_monitors (cfg : config) (ws : list wev) : list (N * bool) :=
     (1401, mon_c14_deadline cfg 0 None ws);
     (1403, mon_c14_live false ws);
     (1402, mon_c14_zero cfg 0 ws);
+    (1404, mon_c14_pings cfg 0 None 0 0 ws);
     (1501, mon_c15 (cf_policy cfg) [] ws);
     (1502, mon_c15_submit (cf_policy cfg) Disconnected None ws);
     (1701, mon_c17_out v5 0 [] [] ws);
+    (1702, mon_c17_in (match co_tam (cf_connect cfg) with Some m => m | None => 0 end) [] [] ws);
     (1801, mon_c18_timeout [] [] [] ws);
     (1803, mon_c18_late [] [] ws);
     (1802, mon_c18_retry (cf_retry cfg) dummy [] ws) ].
